@@ -1,7 +1,7 @@
 import ErgVerif.C01.ProgSim
 import ErgVerif.C01.Clean
 /-!
-# C01 — Compiled bytecode computes what the source program means (stage 1: straight-line scalar fragment, target 3.11)
+# C01 — Compiled bytecode computes what the source program means (stage 1: scalar fragment with `and`/`or`/`if` expressions, target 3.11)
 
 Property theorems only. `compile` transcribes the code generator (Model.lean header lists the Rust functions),
 `runN`/`vmRun` is the model of the 3.11 evaluation loop for the emitted instructions, `runW` the source semantics with
@@ -65,7 +65,7 @@ theorem C01_witness_unclean :
     (runW p).1 = ⟨[], .exc .valueError⟩ ∧ (runW p).2 = false ∧ runPy p = ⟨[['-', '2']], .ok⟩ := by
   decide
 
-/-- non-vacuity: a program with a definition, arithmetic, a comparison, `and`/`or`/`not`, unary minus and two prints
+/-- non-vacuity: a program with a definition, arithmetic, a comparison, an `if` expression, `and`/`or`/`not`, unary minus and three prints
     compiles, is clean, and the model machine prints what the Python reading prints -/
 example :
     let x := "::x_L1"
@@ -73,11 +73,13 @@ example :
       .defv x (.lit (.int 3) (some .nat)),
       .print [.bin .add (.var x (some .nat)) (.bin .mul (.lit (.int 4) (some .nat)) (.lit (.int 2) (some .nat)) (some .nat)) (some .nat),
               .neg (.var x (some .nat)) (some .int)],
+      .print [.ite (.cmp .gt (.var x (some .nat)) (.lit (.int 5) (some .nat)) none) (.lit (.str ['a']) none)
+                (.bin .add (.lit (.str ['b']) (some .str)) (.lit (.str ['c']) (some .str)) none) (some .str)],
       .print [.or (.and (.cmp .gt (.var x (some .nat)) (.lit (.int 2) (some .nat)) (some .bool))
                         (.not (.cmp .eq (.var x (some .nat)) (.lit (.int 5) (some .nat)) (some .bool)) (some .bool)) none)
                   (.lit (.bool false) (some .bool)) (some .bool)]]
     (compile p).isSome = true ∧ (runW p).2 = true ∧
-      (compile p).map vmRun = some (runPy p) ∧ runPy p = ⟨["11 -3".toList, "True".toList], .ok⟩ := by
+      (compile p).map vmRun = some (runPy p) ∧ runPy p = ⟨["11 -3".toList, "bc".toList, "True".toList], .ok⟩ := by
   decide
 
 end ErgVerif.C01
